@@ -61,8 +61,16 @@ fn one_pass(
                 }
                 return Ok(());
             }
+            // Panics in generic indexing code share one panic site; name the input shape when it is not
+            // the known N1 shape (mapped record with SEQ *), so that another cause is not filed under N1.
+            let n1_shape = recs.iter().any(|r| !r.is_unmapped() && r.seq.is_empty() && !r.cigar.is_empty());
+            let past_end = recs.iter().any(|r| {
+                r.is_unmapped()
+                    && matches!((r.rid, r.pos), (Some(rid), Some(p)) if p + r.seq.len().max(1) - 1 > env.refs[rid].seq.len())
+            });
+            let ctx = if !n1_shape && past_end { " ctx=placed-unmapped-read-past-reference-end" } else { "" };
             return Err((
-                fp("write", cfg, &f.symptom),
+                fp("write", cfg, &format!("{}{ctx}", f.symptom)),
                 "the writer accepts the stream or refuses it with Err (no panic; no refusal of a valid stream under the default map)".into(),
                 format!("{} (during {step})", f.detail),
             ));
